@@ -55,6 +55,8 @@ struct Block {
   int id;
   bool freed;
   std::set<int> touchers;  // threads that touched it since their last quiescent state
+  bool published = false;  // its address has been stored into the root slot or into another node
+  int holder = -1;         // thread holding its write lock (from the observed lock events)
 };
 
 struct Exec {
@@ -87,7 +89,7 @@ struct Exec {
       else
         ++it;
     }
-    blocks[u] = Block{u, sz, next_block++, false, {}};
+    blocks[u] = Block{u, sz, next_block++, false, {}, false, -1};
     held += sz;
   }
   void on_free(const void* a, int by) {
@@ -117,6 +119,48 @@ struct Exec {
     }
     b->touchers.insert(t);
   }
+  // --- write discipline (the precondition of C07 as used by the tree): a protected field
+  // of a published node (or the root slot) is stored to only by the holder of its write lock
+  const void* root_lock_addr = nullptr;
+  int root_holder = -1;
+  static std::uint64_t word_at(const void* a) {
+    std::uint64_t w;
+    std::memcpy(&w, a, sizeof w);
+    return w;
+  }
+  void on_cas(const void* a, int t, std::uint64_t expected) {
+    if (word_at(a) != expected) return;  // the CAS that follows will fail
+    Block* b = find(a);
+    if (b != nullptr) b->holder = t;
+    else {
+      root_lock_addr = a;
+      root_holder = t;
+    }
+  }
+  void on_unlock(const void* a, int t) {
+    Block* b = find(a);
+    if (b != nullptr) {
+      if (b->holder == t) b->holder = -1;
+    } else if (root_holder == t) {
+      root_holder = -1;
+    }
+  }
+  void on_store(const void* a, int t, std::uint64_t v) {
+    // a stored tagged node pointer publishes the block it points to
+    Block* target = find(reinterpret_cast<const void*>(static_cast<std::uintptr_t>(v & ~static_cast<std::uint64_t>(7))));
+    Block* b = find(a);
+    if (t != 0) {
+      if (b != nullptr) {
+        // an obsolete node fails every reader's validation: stores into it are harmless
+        if (b->published && !b->freed && b->holder != t && word_at(reinterpret_cast<const void*>(b->base)) != 1)
+          log("{\"e\":\"wdisc\",\"t\":" + std::to_string(t) + ",\"b\":" + std::to_string(b->id) + ",\"holder\":" + std::to_string(b->holder) + "}");
+      } else if (root_lock_addr != nullptr && root_holder != t) {
+        log("{\"e\":\"wdisc\",\"t\":" + std::to_string(t) + ",\"b\":0,\"holder\":" + std::to_string(root_holder) + "}");
+      }
+    }
+    if (target != nullptr && target->base == static_cast<std::uintptr_t>(v & ~static_cast<std::uint64_t>(7)) && (b == nullptr || b->published || t == 0))
+      target->published = true;
+  }
   void on_quiescent(int t) {
     for (auto& kv : blocks) kv.second.touchers.erase(t);
   }
@@ -134,13 +178,22 @@ void observer(vs::TCB* tcb, ev e, const void* a, std::uint64_t v) {
     case ev::H_FREE:
       g_ex->on_free(a, t);
       break;
-    case ev::L_LOAD:
-    case ev::L_CHECK:
     case ev::L_CAS:
+      g_ex->on_access(a, t);
+      g_ex->on_cas(a, t, v);
+      break;
     case ev::L_UNLOCK:
     case ev::L_OBSOLETE:
-    case ev::F_LOAD:
+      g_ex->on_access(a, t);
+      g_ex->on_unlock(a, t);
+      break;
     case ev::F_STORE:
+      g_ex->on_access(a, t);
+      g_ex->on_store(a, t, v);
+      break;
+    case ev::L_LOAD:
+    case ev::L_CHECK:
+    case ev::F_LOAD:
       g_ex->on_access(a, t);
       break;
     case ev::SPIN:
